@@ -540,6 +540,10 @@ func checkCSRResponse(c rspCase, r *h.Rec) error {
 	return nil
 }
 
+// A smoke case only: request responses are not one of the object kinds the
+// property names. Exactly one sign certificate is generated: with two or more,
+// ParseCSRResponse depends on the DER SET OF order of MarshalCSRResponse's
+// output (observation outside the property, see proposed/).
 func TestC15_CSRResponse(t *testing.T) {
 	h.Prop(t, h.P{Name: "csr-response", Quick: 60, Thorough: 1500}, func(rt *rapid.T) rspCase {
 		return rspCase{Seed: rapid.Uint64().Draw(rt, "seed"), NSign: 1, WithEnc: rapid.Bool().Draw(rt, "enc"), NEncCert: rapid.IntRange(1, 2).Draw(rt, "nenc")}
